@@ -165,8 +165,7 @@ def openDB (d : Eng) : Except String Eng := do
       | .error .eof => pure s
       | .error .invalid => throw "cannot read database header"
       | .ok h => do
-        if h.pageSize = 0 then throw "panic assertion failed: page size must be greater than zero"
-        if h.pageN = 0 then throw "panic assertion failed: pgno must be greater than zero"
+        if h.pageSize = 0 then throw "cannot read database header"
         let lock := 1073741824 / h.pageSize + 1
         -- checksums of the pages present in the file; later pages (short file) stay 0
         let full := f.size / h.pageSize
